@@ -75,25 +75,25 @@ PROPS['C16'] = {
 
 PROPS['C01'] = {
     'title': 'Committed values read back exactly, for every column type and offset',
-    'modules': ['ColumnVerif.Props.C01', 'ColumnVerif.Props.C01str', 'ColumnVerif.Props.C01store'],
+    'modules': ['ColumnVerif.Props.C01', 'ColumnVerif.Props.C01str', 'ColumnVerif.Props.C01store', 'ColumnVerif.Props.C01storeAny'],
     'runs': [{'mode': 'store'}],
     'trusted_base': STORE_TB,
     'assumptions': [
-        "store-level read-back through the real Store.commit (any number of dirty chunks, any sequence of commits) is proved for numeric columns under the stated invariants (ColWF, Covered, distinct buffer names, no computed column named like the column); for string/record/enum/key columns the theorems are per chunk pass and the composition inside commit is exercised by the correspondence",
+        "store-level read-back through the real Store.commit (any number of dirty chunks, any sequence of commits): Props/C01store for numeric columns, Props/C01storeAny for every data kind — commit_col: the column after a commit IS the fold of applyData over the dirty chunks (markers, then the ops of the column), an equality of column records; string/record columns under the guard ChunksOK (no pass appends, or each chunk has one section in a well-formed buffer: resizing merges allowed) — without it finding D12 hits the primary itself (kernel-checked d12_on_primary: merge then put of one offset in two sections reads back the merge)",
         "guards = recorded findings: D10 (write+delete of one row), D11 (merge onto a slot occupied before), D12 (op after a resizing merge), D20 (enum hash collision); strings ≤ 65535 bytes",
     ],
-    'level_text': "Lean theorems over the executable store model: commit_readback — after Store.commit (any number of dirty chunks; and after any sequence of commits) every slot of a numeric column is the fold, in issue order, of the transaction's row markers and of the operations it issued for that column and offset, over the previous content; untouched offsets and columns are unchanged; the fill bit is the fold of the markers; no panic under the cover invariant (which CreateColumn's repair and commitCapacity maintain). Column level: for numeric, string, record and enum columns, after the chunk's pass every slot is the fold, in issue order, of the operations addressed to it (any merge function, any number of ops, offsets in any order); untouched offsets keep their content; the last Put decides; typed readers return the slot iff present; big-endian numeric bytes are bit-exact; missing chunk = panic (why D6 had to be repaired); counterexamples for D11/D12/D20. Tied to the code by differential histories over all 16 column kinds, boundary values, several chunks, late columns, all capacities, with a Go-side reference interpreter as implementation-only oracle.",
+    'level_text': "Lean theorems over the executable store model: commit_readback — after Store.commit (any number of dirty chunks; and after any sequence of commits) every slot of a numeric column is the fold, in issue order, of the transaction's row markers and of the operations it issued for that column and offset, over the previous content; untouched offsets and columns are unchanged; the fill bit is the fold of the markers; no panic under the cover invariant (which CreateColumn's repair and commitCapacity maintain). Column level: for numeric, string, record and enum columns, [store level, every data kind: commit_col / commits_col, commit_read_str_last_put, commit_read_key_last_put] after the chunk's pass every slot is the fold, in issue order, of the operations addressed to it (any merge function, any number of ops, offsets in any order); untouched offsets keep their content; the last Put decides; typed readers return the slot iff present; big-endian numeric bytes are bit-exact; missing chunk = panic (why D6 had to be repaired); counterexamples for D11/D12/D20. Tied to the code by differential histories over all 16 column kinds, boundary values, several chunks, late columns, all capacities, with a Go-side reference interpreter as implementation-only oracle.",
     'technique': 'Lean 4 proof (fold semantics of the apply pass by induction over op lists) + model/implementation correspondence',
     'design_ref': '§6 C01',
 }
 
 PROPS['C12'] = {
     'title': 'Primary keys behave like a map from key to one row',
-    'modules': ['ColumnVerif.Props.C12'],
+    'modules': ['ColumnVerif.Props.C12', 'ColumnVerif.Props.C12store'],
     'runs': [{'mode': 'store'}],
     'trusted_base': STORE_TB,
     'assumptions': [
-        "KeyInv is preserved under the guard WFKeyOps (each Put's key is new or already this row's; Deletes hit present rows); outside it: findings D14 (duplicate key in one transaction) and the stale-delete observation, both with counterexample theorems",
+        "KeyInv is preserved under the guard WFKeyOps (each Put's key is new or already this row's; Deletes hit present rows) — at column level and, in Props/C12store, through the real Store.commit and any sequence of commits (commit_key_inv, commits_key_inv, offsetOf_after_commit: after the commit a lookup by key resolves exactly to the present row holding it, two rows never hold one key; commit_key_delete_releases: the key can be inserted again); outside the guard: findings D14 (duplicate key in one transaction) and the stale-delete observation, both with counterexample theorems",
         "concurrent InsertKey of one key (check-then-insert not atomic) is finding D14's second facet; exercised by the scheduler, not proved absent",
     ],
     'level_text': "Lean theorems over the executable key-column model and the four key operations: KeyInv (the table maps exactly the keys of present rows to their rows; hence one live row per key and lookup reaches it) is preserved by every guarded op list (fresh insert, re-key with release of the old key, same-key overwrite, delete), the old key no longer resolves and can be inserted again; InsertKey fails iff the key resolves, UpsertKey updates the existing row or reserves exactly one offset and buffers the key, QueryKey/DeleteKey fail iff absent, noKey iff there is no key column; counterexamples for D14 and stale delete. Tied to the code by differential histories over a 6-letter key alphabet with a Go-side key-map oracle.",
@@ -120,7 +120,7 @@ PROPS['C03'] = {
 PROPS['C19'] = {
     'title': 'Triggers fire once per committed change, with the final value',
     'modules': ['ColumnVerif.Props.C19'],
-    'runs': [{'mode': 'store'}],
+    'runs': [{'mode': 'store'}, {'mode': 'stress'}],
     'trusted_base': STORE_TB,
     'assumptions': [
         "final-value theorem is for numeric columns; for string/record columns a resizing merge is reported after the later ops of the section (finding D12)",
@@ -153,7 +153,7 @@ PROPS['C02'] = {
     'trusted_base': CONC_TB + STORE_TB[3:],
     'assumptions': [
         "rollback leaves no trace is proved for transactions without a successful insert; with one, the reservation stays (finding D8) and is visible while in flight (finding D17): both have counterexample theorems and KNOWN_FINDINGS entries",
-        "'commit applies all' is C01's fold theorem (per chunk pass); the composition inside commit is exercised by the correspondence and the reference oracle",
+        "'commit applies all' is C01's fold theorem, at store level for every data kind (Props/C01storeAny.commit_col); computed columns (indexes, triggers, sorted indexes) follow the column pass by C03/C16/C19's pass lemmas",
     ],
     'level_text': "Lean theorems over the executable transaction model: rollback is the identity on a quiescent store and never emits; buffered writes, deletions and key writes change nothing but the transaction (every key/insert operation changes at most fill and count: OnlyFill); a failed insert releases its offset and leaves every fill bit as before; counterexamples for D8/D17. Tied to the code by differential histories with rollbacks, failing inserts and in-flight observers, a Go-side reference oracle (dump before = dump after), and controlled schedules with an observer transaction between the yield points of inserting transactions.",
     'technique': 'Lean 4 proof (frame theorems over the transaction functions) + model/implementation correspondence + controlled scheduling',
